@@ -290,12 +290,13 @@ static Result check_motion(const J &c)
           if (same(a, b)) continue;
           // boundary-robust: the original world's 2D answer must be stable around the point
           bool ambiguous = false;
-          for (int k = 0; k < 4 && !ambiguous; ++k)
+          for (int k = 0; k < 6 && !ambiguous; ++k)
             {
               std::array<double, 2> pp = p2d;
-              pp[static_cast<size_t>(k / 2)] += (k % 2 ? 0.02 : -0.02);
+              double dd = depth;
+              if (k < 4) pp[static_cast<size_t>(k / 2)] += (k % 2 ? 0.02 : -0.02); else dd += (k % 2 ? 0.02 : -0.02); // the depth is an argument of its own
               Ans a2;
-              try { a2.v = A->properties(pp, depth, l2); a2.tag = a2.v.back() < 0 ? "<none>" : A->feature_tags[static_cast<size_t>(a2.v.back())]; a2.v.pop_back(); } catch (const std::exception &) { a2.threw = true; }
+              try { a2.v = A->properties(pp, dd, l2); a2.tag = a2.v.back() < 0 ? "<none>" : A->feature_tags[static_cast<size_t>(a2.v.back())]; a2.v.pop_back(); } catch (const std::exception &) { a2.threw = true; }
               if (!same(a, a2)) ambiguous = true;
             }
           if (ambiguous) { r.classes.push_back("boundary-ambiguous(skipped)"); continue; }
